@@ -150,7 +150,7 @@ NOT_APPLICABLE = {}
 
 PROPS["C10"] = dict(
     level="other",
-    modules=["contracts.c_pipeline", "contracts.c_dsa"],
+    modules=["contracts.c_pipeline", "contracts.c_dsa", "contracts.c_miniscript"],
     not_decided=["the closure as a deductive statement: it ranges over updater, signer, finalizer, extractor, sighash and the interpreter (>40 functions, dynamic dispatch) and no function-level contract within the executed subset states it",
                  "'a signature never verifies for a different key' for all keys (unforgeability): sampled, not proved",
                  "musig2 and combo descriptors; psbts created as version 2 (here: version 0 converted with to_v2 before signing)"],
